@@ -310,6 +310,11 @@ func mkC13() *Scenario {
 		if arg.Honest && !s.HasInfo && s.LastError != "" {
 			w.Failf("C13.stopped-by-liar", "an honest peer offered the metadata, but what the other peer sent stopped the whole torrent with error %q (status %s)", s.LastError, s.Status)
 		}
+		if arg.Honest && H.GotHS && !H.Connected() && !s.HasInfo && s.LastError == "" {
+			// the honest peer did nothing but answer requests correctly (in whatever order): the client dropping it is how an
+			// honest source gets lost
+			w.Failf("C13.honest-dropped", "the honest peer, which only ever answered metadata requests with the right blocks, was disconnected by the client and the metadata was not adopted (status %s, H requests seen %d)", s.Status, H.allReqs)
+		}
 		if arg.Honest && H.Connected() && !s.HasInfo && s.LastError == "" {
 			w.Failf("C13.honest-not-adopted", "an honest peer offering the metadata is connected but the metadata was not adopted (status %s, info downloaders %d, H requests seen %d, L connected %v)", s.Status, s.InfoDownloaders, H.allReqs, L.Connected())
 		}
